@@ -158,6 +158,16 @@ def mkCache (s : St) (p num : Nat) (delay : Option Nat) (cls : Nat) (kinds : Lis
                         futs := kinds.map (fun k => { isExc := k, st := .pending }), task := none }
     ({ s with caches := upd s.caches s.n ch, n := s.n + 1 }, .okMk s.n num)
 
+/-- `TaskManager.cancel_pending_task(cache)`: the entry registered under the cache object is either a waiting timer
+    (`task`) or the executing timeout task (`runReg`); it is cancelled and the name forgotten -/
+def cancelPending (s : St) (c : Nat) : St :=
+  if (s.caches c).task.isSome then { s with caches := upd s.caches c { s.caches c with task := none } }
+  else if s.running == some c && s.runReg then { s with runReg := false }
+  else s
+
+/-- `register_task(cache, self._on_timeout, cache, delay=…)`: is a live task already registered under the cache? -/
+def nameTaken (s : St) (c : Nat) : Bool := (s.caches c).task.isSome || (s.running == some c && s.runReg)
+
 /-- one event; `refused` replies leave the state unchanged -/
 def step (s : St) : Ev → St × Reply
   | .tick t =>
@@ -180,7 +190,7 @@ def step (s : St) : Ev → St × Reply
       else match lookup ch.ident s.ids with
         | some _ => (s, .dup)
         | none =>
-          if ch.task.isSome || (s.running == some c && s.runReg) then
+          if nameTaken s c then
             -- `register_task` raises "Task already exists" (a live task is registered under this cache object, e.g.
             -- its own running timeout); the identifier is only stored after `register_task`, so nothing changes
             (s, .raised)
@@ -190,9 +200,7 @@ def step (s : St) : Ev → St × Reply
   | .pop p num =>
     match lookup (p, num) s.ids with
     | none => (s, .keyError)
-    | some c =>
-      ({ s with ids := erase (p, num) s.ids,
-                caches := upd s.caches c { s.caches c with task := none } }, .claimed c)
+    | some c => (cancelPending { s with ids := erase (p, num) s.ids } c, .claimed c)
   | .get p num => (s, .got (lookup (p, num) s.ids))
   | .enter t fs => ({ s with override := some t, filters := fs }, .done)
   | .exit => ({ s with override := none, filters := none }, .done)
@@ -222,7 +230,7 @@ def step (s : St) : Ev → St × Reply
   | .shutdown =>
     if s.running.isSome then (s, .refused)
     else
-      ({ s with shutdown := true, ids := [],
+      ({ s with shutdown := true, ids := [], runReg := false,
                 caches := fun i =>
                   let ch := s.caches i
                   if hasVal i s.ids then { ch.cancelFuts with task := none } else { ch with task := none } }, .done)
@@ -252,6 +260,6 @@ def trace (s : St) (evs : List Ev) : List Reply := (run s evs).2
 def outstanding (s : St) (c : Nat) : Prop := (s.caches c).task.isSome = true
 
 /-- `is_pending_task_active(cache)`: a waiting timer, or the executing timeout task while it is still registered -/
-def active (s : St) (c : Nat) : Bool := (s.caches c).task.isSome || (s.running == some c && s.runReg)
+def active (s : St) (c : Nat) : Bool := nameTaken s c
 
 end Ipv8.C10
